@@ -16,8 +16,9 @@ Inductive eff :=
 | Cons (b lo n : N)                    (* placement-new of slots [lo, lo+n) from values outside the ledger *)
 | Dest (b lo n : N)                    (* explicit destructor calls on slots [lo, lo+n) *)
 | MovD (sb slo db dlo n : N)           (* new (dst+i) T(std::move(src[i])); src[i].~T()  within this object *)
-| FromX (sb slo db dlo n : N).         (* new (dst+i) T(other.src[i]) / T(std::move(other.src[i])): the source slots
+| FromX (sb slo db dlo n : N)          (* new (dst+i) T(other.src[i]) / T(std::move(other.src[i])): the source slots
                                           belong to ANOTHER object and stay constructed *)
+| Touch (b lo n : N).                  (* assignment to / swap of / read of the objects in slots [lo, lo+n): they must be constructed *)
 
 Definition bitmap := list bool.
 Record blk := { b_ty : bool; b_size : N; b_map : bitmap }.
@@ -109,6 +110,7 @@ Definition apply (X L : ledger) (e : eff) : option ledger :=
       else None
   | FromX sb slo db dlo n =>
       if src_ok X sb slo n then upd_map L db (chk_fill true dlo n) else None
+  | Touch b lo n => if src_ok L b lo n then Some L else None
   end.
 
 Fixpoint apply_all (X L : ledger) (es : list eff) : option ledger :=
